@@ -16,7 +16,7 @@
                             the bound of the in-tile loop spans the whole block step (true: @tile multiplies the
                             tile size by the loop increment; false: defect F25, the increment is ignored).
  5. `forLoopStepIsAbs`      iteration::buildRangeForLoop: whether the magnitude of the step is what follows the
-                            `-=` of a descending range loop (false: defect F51, `i -= <negative step>`).
+                            `-=` of a descending range loop (false: defect F61, `i -= <negative step>`).
 Every pattern that stops matching raises TranslateError (reported as a broken tie).
 """
 import os, re, subprocess, sys, tempfile
@@ -389,20 +389,45 @@ def gen_forloop():
     else:
         raise TranslateError("buildRangeForLoop: step value expressions %r / %r" % (adds[0], defs[0]))
     return ("/-- iteration::buildRangeForLoop emits `i < end; i += s` for step > 0 and `i > end; i -= s` otherwise;\n"
-            "    true: `s` is |step|; false: `s` is the (negative) step itself (defect F51: the loop runs away) -/\n"
+            "    true: `s` is |step|; false: `s` is the (negative) step itself (defect F61: the loop runs away) -/\n"
             "def forLoopStepIsAbs : Bool := %s\n" % ("true" if is_abs else "false")), is_abs
+
+
+def gen_empty_guard(src):
+    """do the five kernel-launching entry points return before getMapArrayScope / the reduce kernels for length 0?"""
+    heads = {"typelessEvery": r"bool typelessEvery\(const baseFunction &fn\) const \{",
+             "typelessFindIndex": r"int typelessFindIndex\(const baseFunction &fn\) const \{",
+             "typelessForEach": r"void typelessForEach\(const baseFunction &fn\) const \{",
+             "typelessMapTo": r"void typelessMapTo\(occa::memory output,\s*const baseFunction &fn\) const \{",
+             "typelessReduce": r"T2 typelessReduce\(reductionType type,\s*const T2 &localInit,\s*const bool useLocalInit,\s*const baseFunction &fn\) const \{"}
+    guarded = []
+    for name, h in heads.items():
+        m = re.search(h + r"\s*(if \((?:!length\(\)|length\(\) == 0)\) \{)?", src)
+        if not m:
+            raise TranslateError("%s not found in typelessArray.hpp" % name)
+        guarded.append(bool(m.group(1)))
+    if all(guarded):
+        g = True
+    elif not any(guarded):
+        g = False
+    else:
+        raise TranslateError("only some typeless entry points guard against empty arrays: %s" % dict(zip(heads, guarded)))
+    return ("/-- true: every/findIndex/forEach/mapTo/reduce return before any tile arithmetic when the length is 0\n"
+            "    (repair of F27); false: they reach `(length + safeTileSize - 1) / safeTileSize` with safeTileSize = 0 -/\n"
+            "def emptyGuard : Bool := %s\n" % ("true" if g else "false")), g
 
 
 def gen():
     src = open(os.path.join(REPO, "include/occa/functional/typelessArray.hpp")).read()
     loops, scaled = gen_map_loops(src)
     fl, is_abs = gen_forloop()
+    eg, guard = gen_empty_guard(src)
     out = ["-- GENERATED by translate/gen_range.py from src/functional/range.cpp, include/occa/functional/typelessArray.hpp,",
            "-- src/loops/iteration.cpp and the OKL translation of the array map loops; do not edit.",
            "import OccaModel.CInt", "namespace Occa.Gen", "open Occa", "",
-           gen_range_length(), gen_safe_tile(), gen_cpu_reduce(src), loops, fl, "end Occa.Gen", ""]
+           gen_range_length(), gen_safe_tile(), gen_cpu_reduce(src), loops, fl, eg, "end Occa.Gen", ""]
     h = write_if_changed(os.path.join(VERIF, "lean/OccaGen/RangeFns.lean"), "\n".join(out))
-    gen.flags = {"tileInnerScaled": scaled, "forLoopStepIsAbs": is_abs}
+    gen.flags = {"tileInnerScaled": scaled, "forLoopStepIsAbs": is_abs, "emptyGuard": guard}
     return {"RangeFns": h}
 
 
